@@ -13,22 +13,22 @@ CLAIMS = {
          "the transport model knows what each composed write reported to the client", SIM),
  "C05": ("exploration", "5 C05", "Completion counters per operation (never > 1, exactly 1 after teardown), re-entrancy flag, prompt completion after cancel()/async_disconnect (no virtual time may pass except behind an uncancellable resolve), io_context out of work after cancel()+drain and after destruction.",
          "operations are only initiated on a running client (documented precondition)", SIM),
- "C06": ("exploration", "5 C06", "Per connection the PUBLISH packets (QoS>0; all when no Receive Maximum was announced) arrive in initiation order (non-decreasing operation index incl. retransmissions), cancelled operations skipped.", "message identity by tagged topic", SIM),
+ "C06": ("exploration", "5 C06", "Per connection the PUBLISH packets (QoS>0; all when no Receive Maximum was announced) arrive in initiation order (non-decreasing operation index incl. retransmissions), cancelled operations skipped. C06x runs: a QoS>0 publish stays unacknowledged while 2^15 .. 2^16 further publishes are initiated (serial-number wrap), then the connection is given up and the retransmissions must keep their order.", "message identity by tagged topic", SIM),
  "C07": ("exploration", "5 C07", "Broker-side counter of distinct QoS>0 packet ids received and not yet released by an emitted PUBACK/PUBCOMP/failing PUBREC never exceeds the Receive Maximum of that connection's CONNACK, checked at every receipt; progress half: a QoS>0 publish initiated on an established connection is not handed over only after 3 quiet seconds in which quota was available, no write was outstanding and nothing stalled; starvation is covered by C02's liveness.",
          "release counted at emission of the ack (earliest possible), so latency cannot cause a false alarm", SIM),
  "C08": ("exploration", "5 C08", "System: identifier never 0 and never shared by two outstanding operations of one service, pid_overrun only with 65535 outstanding. Component: packet_id_allocator against a std::set model over seeded allocate/free histories incl. full exhaustion, with shrinking.",
          "operation identity by tag, not by identifier", SIM + " + model-based component test of the allocator"),
- "C11": ("exploration", "5 C11", "C11x runs: detail::autoconnect_stream (lock, reconnect_op, read_op, write_op, endpoints) from /repo on its own under one reader and one serialised writer, with cancel()+close()+open() of the same stream object, judged strictly (never two attempts in progress, no resolve during an attempt, every trigger completes once, cancelled triggers are told so, reconnects after the last fault). Component: async_mutex against a FIFO model under seeded lock/unlock/per-waiter-cancel/cancel-all/destroy schedules stepped with poll_one (at most one holder, exactly-once completion, arrival order, cancelled waiter never granted). System: no connection attempt starts while an earlier unfinished attempt still has an operation pending.",
+ "C11": ("exploration", "5 C11", "C11x runs: detail::autoconnect_stream (lock, reconnect_op, read_op, write_op, endpoints) from /repo on its own under one reader and one serialised writer, with cancel()+close()+open() of the same stream object and graceful-shutdown requests (shutdown_op takes the connection lock too), judged strictly (never two attempts in progress, no resolve during an attempt, every trigger completes once, cancelled triggers are told so, reconnects after the last fault). Component: async_mutex against a FIFO model under seeded lock/unlock/per-waiter-cancel/cancel-all/destroy schedules stepped with poll_one (at most one holder, exactly-once completion, arrival order, cancelled waiter never granted). System: no connection attempt starts while an earlier unfinished attempt still has an operation pending.",
          "a cancellation signal is emitted at most once and only for an outstanding waiter", SIM + " + model-based component test of async_mutex"),
  "C14": ("exploration", "5 C14", "As C01 for SUBSCRIBE/UNSUBSCRIBE: success needs a content-exact request received and a SUBACK/UNSUBACK for its id emitted afterwards on that connection and delivered before the handler; handler reason codes equal the acknowledgement's, one per topic.",
          "legitimate broker outside hostile windows; malformed acks are generated as targeted hostile replies", SIM),
  "C17": ("exploration", "5 C17", "Strict independent MQTT 5 decoder applied to every byte the client writes in every run; PUBLISH/SUBSCRIBE/UNSUBSCRIBE/DISCONNECT fields compared with the supplied arguments, CONNECT fields with the configuration. The input space is sampled (boundary-biased), not enumerated.",
          "reference codec written from the specification", SIM),
- "C04": ("exploration", "5 C04", "Broker model acts as QoS 0/1/2 sender with MQTT retransmission on session resumption. Wire: ack type per QoS, no stray acks, PUBCOMP only after a delivered PUBREL. Application: content equality, QoS 2 at most once always and exactly once by the end of the healed suffix, QoS 1 at least once, per-QoS order of first deliveries. Six known-finding classes (inbound exchanges interrupted by a connection loss) are reported as KNOWN-FINDING; every other class is a VIOLATION.",
+ "C04": ("exploration", "5 C04", "Broker model acts as QoS 0/1/2 sender with MQTT retransmission on session resumption. Wire: ack type per QoS, no stray acks, PUBCOMP only after a delivered PUBREL; the first transmission of a QoS 1/2 PUBLISH and a PUBREL whose PUBREC travelled on the same connection are acknowledged within 10 s while the connection stays up and fault-free, and - without any timing assumption - a PUBREL that was read and dispatched is answered at the latest by the third later write of that connection. Application: content equality, QoS 2 at most once always and exactly once by the end of the healed suffix, QoS 1 at least once, per-QoS order of first deliveries. Six known-finding classes (inbound exchanges interrupted by a connection loss) are reported as KNOWN-FINDING; every other class is a VIOLATION.",
          "lower bounds only for messages not in flight when the broker dropped the session and only when the receive channel of the running client could be drained at the end", SIM + "; bounded liveness"),
  "C09": ("exploration", "5 C09", "async_disconnect at seeded instants: completion within 5 s of initiation (+ injected stall), every post-handshake write begun after initiation carries exactly the DISCONNECT with the given reason code/properties (properties dropped iff larger than Maximum Packet Size) and nothing follows it on that connection, no write and no connection attempt after completion until async_run.",
          "attribution of network activity to a service object is skipped while two service generations are active", SIM),
- "C10": ("exploration", "5 C10", "First packet of every connection decodes strictly to the configured CONNECT (exactly one), nothing but AUTH is written before a successful CONNACK was delivered, a silent handshake is abandoned at exactly 5 s, the broker list is visited cyclically with further endpoints of a host first, no pause inside a pass, back-off 0.5-16.5 s (and 2^min(k,4) s +- 0.5 s for the k-th wrap) only at wrap-around.",
+ "C10": ("exploration", "5 C10", "First packet of every connection decodes strictly to the configured CONNECT (exactly one), nothing but AUTH is written before a successful CONNACK was delivered, a silent handshake is abandoned at exactly 5 s, an attempt whose authenticator fails (at client_initial, server_challenge or server_final, completing inline or posted) is abandoned and the next endpoint tried, the broker list is visited cyclically with further endpoints of a host first, no pause inside a pass, back-off 0.5-16.5 s (and 2^min(k,4) s +- 0.5 s for the k-th wrap) only at wrap-around.",
          "timing is judged only where no stall, no 5 s race and a single service generation make it definite", SIM + "; exact virtual-time comparisons"),
  "C12": ("exploration", "5 C12", "Every post-handshake read lives at most 1.5*K and is abandoned exactly then (never earlier; later only by injected stall); with K = 0 no read is abandoned and no PINGREQ is sent; on fault-free connections a PINGREQ is handed to the transport within K (+ 1 s slack + stall) of the CONNACK / the previous PINGREQ's write completion.",
          "K = Server Keep Alive of the connection's CONNACK, else the configured value", SIM + "; exact virtual-time comparisons"),
